@@ -72,10 +72,10 @@ DOC = [
     (SLICE_LINK, 'flip differs from current', 'push', r'\(self\[k\]\.idx_flip == self\[k\]\.idx_curr\)', True, []),
     (SLICE_LINK, 'flip points back', 'push', r'idx_flip\.idx\)+\]?\)*.*\.idx_flip != self\[k\]\.idx_curr\)', True, [r'!::is_fake\(self\[k\]\.idx_flip\)']),
     (SLICE_LINK, 'reference inside the network', 'push', r'is_some\(maybe\(&self\[.*\.idx', True, []),
-    (SLICE_LINK, 'next links point back', 'push', r'is_linked_prev|\?join', False, [r'!::is_fake\(self\[k\]\.idx_next\)']),
+    (SLICE_LINK, 'next links point back', 'push', r'\.idx_curr\.idx == 0\) \? true : .*\.idx_prev == self\[k\]\.idx_curr\) \? true : .*\.idx_prev_alt == self\[k\]\.idx_curr\)', False, [r'!::is_fake\(self\[k\]\.idx_next\)']),
     (SLICE_LINK, 'no coincident switch points (next)', 'push', r'!::is_fake\(.*idx_prev_alt\)', True, [r'!::is_fake\(self\[k\]\.idx_next\)', r'!::is_fake\(self\[k\]\.idx_next_alt\)']),
     (SLICE_LINK, 'next alt only with next', 'push', r'!::is_fake\(self\[k\]\.idx_next_alt\)', True, [r'^!::is_fake\(self\[k\]\.idx_next\)=False']),
-    (SLICE_LINK, 'prev links point back', 'push', r'is_linked_next|\?join', False, [r'!::is_fake\(self\[k\]\.idx_prev\)']),
+    (SLICE_LINK, 'prev links point back', 'push', r'\.idx_curr\.idx == 0\) \? true : .*\.idx_next == self\[k\]\.idx_curr\) \? true : .*\.idx_next_alt == self\[k\]\.idx_curr\)', False, [r'!::is_fake\(self\[k\]\.idx_prev\)']),
     (SLICE_LINK, 'no coincident switch points (prev)', 'push', r'!::is_fake\(.*idx_next_alt\)', True, [r'!::is_fake\(self\[k\]\.idx_prev\)', r'!::is_fake\(self\[k\]\.idx_prev_alt\)']),
     (SLICE_LINK, 'prev alt only with prev', 'push', r'!::is_fake\(self\[k\]\.idx_prev_alt\)', True, [r'^!::is_fake\(self\[k\]\.idx_prev\)=False']),
     # ---- one link (real)
